@@ -142,6 +142,21 @@ func Check(r *ev.Run, replay string) {
 		}
 		c01.Pool(func(y func(progen.Program)) { progen.F2(n, filter, y) }, run)
 	}
+	// the other families of the shared corpus (functions, named function statements in blocks and
+	// loops, scoping, containers, try/defer, closures): same static search and conformance
+	c01.Pool(func(y func(progen.Program)) {
+		progen.F1Values(1, progen.ValuePool(9), y)
+		progen.F3(y)
+		f4 := 2
+		if r.Thorough() {
+			f4 = 3
+		}
+		progen.F4(f4, y)
+		progen.F5(y)
+		progen.F6(y)
+		progen.C02(r.Thorough(), y)
+		progen.F7(y)
+	}, run)
 	scaled(r, c)
 	r.Set("states", int(c.states))
 	r.Set("transitions", int(c.trans))
@@ -149,7 +164,7 @@ func Check(r *ev.Run, replay string) {
 	r.Set("concrete_steps_checked_against_table", int(c.steps))
 	r.Set("programs_analysed", int(c.programs))
 	r.Set("programs_rejected_by_compiler_skipped", int(c.skippedRejected))
-	r.Set("rule", fmt.Sprintf("explicit-state search over (code, ip, height) of the bytecode of every control-skeleton program with <= %d statement nodes (all) and <= %d (break/continue under a switch in a loop); conformance: every instruction executed by the real VM for the same programs is compared with the effect table; scaled loop bounds 10 vs large for every loop skeleton", maxAll, maxFiltered))
+	r.Set("rule", fmt.Sprintf("explicit-state search over (code, ip, height) of the bytecode of every control-skeleton program with <= %d statement nodes (all) and <= %d (break/continue under a switch in a loop) and of every program of the function, scoping, container, error/defer, closure and constant families; conformance: every instruction executed by the real VM for the same programs is compared with the effect table; scaled loop bounds 10 vs large for every loop skeleton", maxAll, maxFiltered))
 }
 
 // scaled runs every loop skeleton with its outermost loops at 10 iterations and at a
